@@ -36,10 +36,11 @@ const (
 	opRecv
 	opSelect
 	opPoint
+	opLockCall
 )
 
 var opNames = map[opKind]string{opStart: "start", opLock: "lock", opRLock: "rlock", opAtomic: "atomic",
-	opSend: "send", opRecv: "recv", opSelect: "select", opPoint: "point"}
+	opSend: "send", opRecv: "recv", opSelect: "select", opPoint: "point", opLockCall: "lock-call"}
 
 type pendingOp struct {
 	kind       opKind
@@ -238,12 +239,20 @@ func (s *Sched) Enabled() []Action {
 		switch op.kind {
 		case opStart, opAtomic, opPoint:
 			out = append(out, Action{t.id, -1})
+		case opLockCall:
+			// the writer announces itself (sync.RWMutex: from here on new readers wait); one writer at a time
+			if !op.mu.announced {
+				out = append(out, Action{t.id, -1})
+			}
 		case opLock:
+			// the announced writer waits for the active readers to leave
 			if !op.mu.w && op.mu.r == 0 {
 				out = append(out, Action{t.id, -1})
 			}
 		case opRLock:
-			if !op.mu.w {
+			// readers wait while a writer holds the lock OR has announced itself (writer preference): a goroutine
+			// that read-locks again while a writer is waiting deadlocks, as with the real sync.RWMutex
+			if !op.mu.w && !op.mu.announced {
 				out = append(out, Action{t.id, -1})
 			}
 		case opSend:
@@ -342,7 +351,7 @@ func (s *Sched) Describe() string {
 	}
 	var mus []string
 	for m, id := range s.muIDs {
-		mus = append(mus, fmt.Sprintf("m%d=w%v/r%d/o%d", id, m.w, m.r, m.owner))
+		mus = append(mus, fmt.Sprintf("m%d=w%v/a%v/r%d/o%d", id, m.w, m.announced, m.r, m.owner))
 	}
 	sort.Strings(mus)
 	sb.WriteString(strings.Join(mus, ","))
